@@ -470,9 +470,9 @@ impl Inner {
     ) -> Result<(), Error> {
         let id = frame.stream_id();
 
-        // The GOAWAY process has begun. All streams with a greater ID than
-        // specified as part of GOAWAY should be ignored.
-        if id > self.actions.recv.max_stream_id() {
+        // The GOAWAY process has begun. All streams the peer initiated with a
+        // greater ID than specified as part of GOAWAY should be ignored.
+        if !peer.is_local_init(id) && id > self.actions.recv.max_stream_id() {
             tracing::trace!(
                 "id ({:?}) > max_stream_id ({:?}), ignoring HEADERS",
                 id,
@@ -596,9 +596,10 @@ impl Inner {
         let stream = match self.store.find_mut(&id) {
             Some(stream) => stream,
             None => {
-                // The GOAWAY process has begun. All streams with a greater ID
-                // than specified as part of GOAWAY should be ignored.
-                if id > self.actions.recv.max_stream_id() {
+                // The GOAWAY process has begun. All streams the peer initiated
+                // with a greater ID than specified as part of GOAWAY should be
+                // ignored.
+                if !peer.is_local_init(id) && id > self.actions.recv.max_stream_id() {
                     tracing::trace!(
                         "id ({:?}) > max_stream_id ({:?}), ignoring DATA",
                         id,
@@ -674,9 +675,9 @@ impl Inner {
             return Err(Error::library_go_away(Reason::PROTOCOL_ERROR));
         }
 
-        // The GOAWAY process has begun. All streams with a greater ID than
-        // specified as part of GOAWAY should be ignored.
-        if id > self.actions.recv.max_stream_id() {
+        // The GOAWAY process has begun. All streams the peer initiated with a
+        // greater ID than specified as part of GOAWAY should be ignored.
+        if !self.counts.peer().is_local_init(id) && id > self.actions.recv.max_stream_id() {
             tracing::trace!(
                 "id ({:?}) > max_stream_id ({:?}), ignoring RST_STREAM",
                 id,
